@@ -167,13 +167,14 @@ struct FormattedSnippet {
 
 impl FormattedSnippet {
     /// In case the snippet needed to be wrapped in a function, this shifts down the ranges of
-    /// non-formatted code.
-    fn unwrap_code_block(&mut self) {
+    /// non-formatted code by the number of lines the function header takes in the formatted
+    /// snippet (two with `brace_style = "AlwaysNextLine"`).
+    fn unwrap_code_block(&mut self, header_lines: usize) {
         self.non_formatted_ranges
             .iter_mut()
             .for_each(|(low, high)| {
-                *low -= 1;
-                *high -= 1;
+                *low = low.saturating_sub(header_lines);
+                *high = high.saturating_sub(header_lines);
             });
     }
 
@@ -382,8 +383,6 @@ fn format_code_block(
         .set()
         .newline_style(NewlineStyle::Unix);
     let mut formatted = format_snippet(&snippet, &config_with_unix_newline, is_macro_def)?;
-    // Remove wrapping main block
-    formatted.unwrap_code_block();
 
     // Trim "fn main() {" on the first line and "}" on the last line,
     // then unindent the whole code block.
@@ -396,6 +395,10 @@ fn format_code_block(
     // formatted into the empty string, leading to the enclosing `fn main() {\n}` being formatted
     // into `fn main() {}`. In this case no unindentation is done.
     let block_start = min(FN_MAIN_PREFIX.len(), block_len);
+
+    // Remove wrapping main block
+    let header_lines = formatted.snippet[..block_start].matches('\n').count();
+    formatted.unwrap_code_block(header_lines);
 
     let mut is_indented = true;
     let indent_str = Indent::from_width(config, config.tab_spaces()).to_string(config);
